@@ -66,9 +66,24 @@ def poly_fun(coeffs):
 
 
 def select_nodes(mesh, sel):
+    nodes = np.asarray(_select_nodes(mesh, sel), dtype=int)
+    d = sel.get("dup")
+    if d and nodes.size:
+        # the selection is a set of ids: repeat some ids and shuffle the order
+        rng = np.random.default_rng(d["seed"])
+        extra = rng.choice(nodes, size=int(d["n"])) if d["n"] else np.zeros(0, dtype=int)
+        nodes = np.concatenate([nodes, extra]).astype(int)
+        rng.shuffle(nodes)
+    return nodes
+
+
+def _select_nodes(mesh, sel):
     coord = mesh.coord
     t = sel["type"]
     tol = 1e-9
+    if t == "concat":
+        # np.concatenate([nodes_a, nodes_b]) as users write it: shared nodes appear twice
+        return np.concatenate([np.asarray(_select_nodes(mesh, s), dtype=int) for s in sel["parts"]])
     if t == "all":
         return mesh.nodes
     if t == "face":
@@ -83,7 +98,7 @@ def select_nodes(mesh, sel):
         return np.where(ok)[0]
     if t == "random":
         rng = np.random.default_rng(sel["seed"])
-        base = select_nodes(mesh, sel["within"]) if "within" in sel else mesh.nodes
+        base = _select_nodes(mesh, sel["within"]) if "within" in sel else mesh.nodes
         keep = rng.random(base.size) < sel["frac"]
         return base[keep]
     raise ValueError(t)
